@@ -254,11 +254,11 @@ HEIGHTS_T = HEIGHTS_Q + [-5000.0, 3e6, 1.6e7]
 
 def ell_grid(tier, base):
     if tier == "quick":
-        lat = [-90 + 5 * i for i in range(37)]
+        lat = [-90 + 3 * i for i in range(61)]
         lon = [-180 + 30 * i for i in range(1, 13)]
         hs = HEIGHTS_Q
         # seed only shifts the interior grid by whole degrees
-        sh = base % 5
+        sh = base % 3
         lat = [x + sh if -90 < x + sh < 90 and x not in (-90, 90) else x for x in lat]
     else:
         lat = [-90 + i for i in range(181)]
@@ -985,14 +985,14 @@ def bearing_nontrivial(case):
 
 PARTS = [
     Part("ellipsoid", custom=run_ellipsoid, workers=ELL_WORKERS, n={"quick": 1, "thorough": 1}),
-    Part("ellipsoid_random", strategy=ell_strategy, oracle=ell_oracle, n={"quick": 1500, "thorough": 40000}),
+    Part("ellipsoid_random", strategy=ell_strategy, oracle=ell_oracle, n={"quick": 4000, "thorough": 40000}),
     Part("angles", custom=run_angles, n={"quick": 1, "thorough": 1}),
     Part("dms", custom=run_dms, n={"quick": 1, "thorough": 1}),
-    Part("angles_random", strategy=angles_strategy, oracle=angles_oracle, n={"quick": 1000, "thorough": 30000}),
+    Part("angles_random", strategy=angles_strategy, oracle=angles_oracle, n={"quick": 2500, "thorough": 30000}),
     Part("literals", custom=run_literals, workers=LIT_WORKERS, n={"quick": 1, "thorough": 1}),
     Part("literals_long", strategy=literal_strategy, oracle=literal_oracle,
-         nontrivial=lambda c: lit_nontrivial(c["s"]), n={"quick": 1500, "thorough": 40000}),
+         nontrivial=lambda c: lit_nontrivial(c["s"]), n={"quick": 5000, "thorough": 40000}),
     Part("bearing", custom=run_bearing, n={"quick": 1, "thorough": 1}),
     Part("bearing_random", strategy=bearing_strategy, oracle=bearing_oracle, nontrivial=bearing_nontrivial,
-         n={"quick": 1000, "thorough": 30000}),
+         n={"quick": 3000, "thorough": 30000}),
 ]
